@@ -92,6 +92,11 @@ def gen_base(rng, want):
         sc.mods += ["--nextseq-trim", rng.choice(["10", "20"])]
     if rng.random() < 0.35:
         sc.mods += ["-q", rng.choice(["10", "15,5", "20"])]
+        if sc.paired and rng.random() < 0.3:
+            sc.mods += ["-Q", rng.choice(["0", "5", "25", "5,20"])]
+    elif sc.paired and rng.random() < 0.12:
+        # only R2 is quality-trimmed
+        sc.mods += ["-Q", rng.choice(["10", "20", "15,5"])]
     if rng.random() < 0.25:
         sc.mods += ["--trim-n"]
     if rng.random() < 0.2:
@@ -496,6 +501,12 @@ def parse_text_report(text):
         m = re.search(p, text)
         if m:
             out[k] = num(m.group(1))
+    # indented per-read lines below a figure ("  Read 1:   123 bp")
+    for k, head in (("total_bp", "Total basepairs processed"), ("quality_trimmed", "Quality-trimmed"), ("poly_a_trimmed", "Poly-A-trimmed"),
+                    ("written_bp", r"Total written \(filtered\)")):
+        m = re.search(head + r":[^\n]*\n((?:  Read \d:[^\n]*\n)*)", text)
+        if m:
+            out["_per_read:" + k] = {int(a): num(b) for a, b in re.findall(r"  Read (\d):\s+([\d,]+) bp", m.group(1))}
     sect = re.search(r"== Read fate breakdown ==\n(.*?)\n\n", text, re.S)
     out["_fate_lines"] = re.findall(r"^(?:Reads|Pairs) ([^:\n]+):\s+([\d,]+) \(", sect.group(1) + "\n", re.M) if sect else []
     return out
